@@ -124,7 +124,9 @@ def run_epochs(block, ctx):
 
 # -- frames --------------------------------------------------------------------------------
 
-EQUINOX_OFFSETS = [0.0, 0.5, -0.5, 1.0, -1.0, 3.0, -3.0]
+EQUINOX_OFFSETS = [0.0, 0.5, -0.5, 1.0, -1.0, 3.0, -3.0,
+                   # both sides of the special value 'equinox = J2000' (0.1, 0.5, 2 years)
+                   0.001, -0.001, 0.005, -0.005, 0.02, -0.02]
 
 
 def check_frames(j):
@@ -151,6 +153,9 @@ def check_frames(j):
         tj = J2000 + 36525.0 * off
         variants.append(("equinox", tj, (lambda tj=tj: Sun.rectangular_coordinates_equinox(e, Epoch(tj)))))
     variants.append(("equinox_of_date", j, lambda: Sun.rectangular_coordinates_equinox(e, Epoch(j))))
+    for dd in (36.525, -36.525):       # both sides of the special value 'equinox = date'
+        tj = j + dd
+        variants.append(("equinox", tj, (lambda tj=tj: Sun.rectangular_coordinates_equinox(e, Epoch(tj)))))
     got = {}
     for name, tj, fn in variants:
         try:
@@ -197,7 +202,7 @@ def check_frames(j):
 
 def run_frames(block, ctx):
     for j in block:
-        ctx.evals += 12
+        ctx.evals += 20
         ctx.nt_count += 1
         res = check_frames(j)
         for r_ in res:
